@@ -46,7 +46,15 @@ DELETE_TABLE = {
     ("occa::modeMemoryPool_t::~modeMemoryPool_t", "this->buffer"): "owner",
     ("occa::modeMemoryPool_t::resize", "this->buffer"): "owner",
     ("occa::modeMemoryPool_t::setAlignment", "this->buffer"): "owner",
+    # seen only when every unit is loaded (thorough tier): launcher kernels own their device-side kernels
+    ("occa::launchedModeKernel_t::~launchedModeKernel_t", "this->launcherKernel"): "owner",
+    ("occa::launchedModeKernel_t::~launchedModeKernel_t", "this->deviceKernels[i]"): "owner",
+    # a kernel object created in this function and deleted on its own failure path, before any handle exists
+    ("occa::opencl::device::buildOKLKernelFromBinary", "(&k)"): "owner",
 }
+THOROUGH_ONLY = {("occa::launchedModeKernel_t::~launchedModeKernel_t", "this->launcherKernel"),
+                 ("occa::launchedModeKernel_t::~launchedModeKernel_t", "this->deviceKernels[i]"),
+                 ("occa::opencl::device::buildOKLKernelFromBinary", "(&k)")}
 
 
 def is_ring_call(n, what):
@@ -302,6 +310,8 @@ def run(ctx):
             else:
                 R.ob("C01-R3", True, f.q, key, f.site(n), "exclusive owner field", nontrivial=False)
     for tk in DELETE_TABLE:
+        if tk in THOROUGH_ONLY and ctx.tier != "thorough":
+            continue
         if tk not in seen_del:
             raise AnalysisBroken("C01-R3 anchor vanished: delete %s in %s" % (tk[1], tk[0]))
 
